@@ -1,7 +1,8 @@
 """C07 — cleaning is lossless for ordinary content.
 
 Proof: coq/C07 (the cleaner's restructuring idioms - replace_child(n, n.children), adjacent move_to, copy-and-split -
-keep `words` on the heap model of C05).
+keep `words` on the heap model of C05; generic dissolve/prune passes, fix_paragraphs, the breaking-return loop, fix_nesting
+and any sequence of such passes keep well-formedness and words).
 Monitor (decides the universal statement by exploration): the EXTRACTED cwords / table_dims run on snapshots of the real
 tree before and after TreeCleaner.clean_all(), over well-formed documents of a recursive grammar of ordinary content
 (unique words; below the size heuristics; free of the documented removal triggers): same word sequence, same section,
@@ -17,14 +18,24 @@ def build():
 
 
 def check(run):
-    run.rule = ("documents of the recursive grammar vt/harness/c05_gen.wellformed: 0-2 leading blocks, 1-6 sections (levels 2-4) each "
-                "with body text, blocks = paragraphs of styled/linked text with <ref>s, properly nested */# lists (depth <= 3), tables of "
-                "1-4 rows x 1-4 columns with optional caption/header row, indented lines; 25% of the documents use named references incl. "
-                "re-use; every word unique. distinct = distinct wikitext; non-trivial = at least one pass changed the tree")
+    run.rule = ("documents of the recursive grammar vt/harness/c05_gen.wellformed: 0-2 leading blocks, 1-6 sections (levels 2-4); a section "
+                "body is text + blocks, or (12%) visible content without any plain word (label-less [[links]], bare URLs, lists of them, "
+                "a formula); blocks = paragraphs of styled/linked text with <ref>s, properly nested */# lists (depth <= 3), tables of 1-4 "
+                "rows x 1-4 columns with optional caption/header row, tables of 2-4 x 2-3 cells of which 1-2 hold 1-4 blocks (paragraphs/"
+                "lists) of 1-5 / 10-60 / 100-330 words (whole table < 2400 characters), preformatted blocks with captioned images, "
+                "indented lines; 25% of the documents use named references incl. re-use; words are unique except that 12% of the documents "
+                "repeat one inline element / list item / cell line verbatim (structurally equal siblings). distinct = distinct wikitext; "
+                "non-trivial = at least one pass changed the tree")
     run.trusted = c05.TRUSTED + ["the oracle's labelling (vt/harness/c05_snap.c07_compare): a section / reference is identified by the "
-                                 "first word it encloses; list nesting = number of enclosing Item nodes"]
+                                 "first word it encloses; list nesting = number of enclosing Item nodes; the column of a table word "
+                                 "(py_columns, Python reading of the snapshot)"]
     run.assumptions = ["visible words = Text captions, targets of childless article/namespace links, URL and Math captions, split at whitespace",
-                       "the universal statement about the composition of the passes is decided by exploration, not by proof"]
+                       "reading order inside a table is compared column by column when the row-major order differs (split_big_table_cells "
+                       "continues a cell that is taller than a page in the row below, in the same column)",
+                       "a section whose body is only an unlabelled bracketed external link ([http://x], printed as a number) is not in the "
+                       "grammar: the cleaner documents it as empty",
+                       "the universal statement about the composition of ALL passes is decided by exploration, not by proof (proved: the "
+                       "idioms, the generic edit passes, fix_paragraphs, the breaking-return loop, fix_nesting and any sequence of those)"]
     src = core.snapshot()
     run.check_proofs("C07", dirs=["C05", "C06"], gen=lambda: __import__("vt.gen.c06_api", fromlist=["x"]).generate(src))
     exe = build()
